@@ -162,6 +162,20 @@ func propertyFailsL(prop, op, res, lean string) (why string) {
 			return rtoOracle(kind, args, res)
 		}
 	case "C03":
+		if base == "rembto" && hasPrefix(lean, "ok") && res != lean {
+			// the model's MarshalTo is its Marshal, proved equal to the draft's rendering (C03.remb_wire)
+			if p := getBody(NewR(args), "REMB"); wfPacket(p) {
+				return "MarshalTo into a used buffer differs from the draft's layout (rendering: " + clip(lean, 80) + ")"
+			}
+		}
+		if base == "relay" {
+			if hasPrefix(res, "mutated") {
+				return "marshalling a list of decoded packets wrote into memory it does not own: " + res
+			}
+			if strings.HasSuffix(res, "concat-differs") {
+				return "Marshal(list) is not the concatenation of the members' encodings"
+			}
+		}
 		if base == "encspec" && hasPrefix(lean, "ok") && res != lean {
 			p := getBody(NewR(args), kind)
 			if wfPacket(p) {
@@ -179,6 +193,13 @@ func propertyFailsL(prop, op, res, lean string) (why string) {
 	case "C04":
 		if (base == "dec" || base == "udec" || base == "decv") && hasPrefix(res, "panic") {
 			return "decoder panicked"
+		}
+		if base == "rto" && kind != "CCFB" && kind != "SLI" {
+			// Marshal output is the RFC encoding (C03; not so for CCFB and SLI, whose deviations are listed and whose
+			// decoders are judged on hand-built encodings instead): the type's decoder must give the value back
+			if w := rtoOracle(kind, args, res); w != "" {
+				return w
+			}
 		}
 		if base == "udec" && isOK {
 			b := NewR(args).H()
@@ -367,6 +388,27 @@ func propertyFailsL(prop, op, res, lean string) (why string) {
 		if base == "rt" {
 			return rtOracle(args, res, true)
 		}
+		if base == "udec" && isOK && len(res) > 3 {
+			// a frame of an unregistered (type, FMT) comes back as a RawPacket holding exactly that frame
+			b := NewR(args).H()
+			if framesOK(b) {
+				ps := getPackets(NewR(res[3:]))
+				i := 0
+				for off := 0; off < len(b) && i < len(ps); i++ {
+					l := (int(b[off+2])<<8 | int(b[off+3]) + 1) * 4
+					if dispatchKind(b[off:]) == "RAW" {
+						rp, ok := ps[i].(*rtcp.RawPacket)
+						if !ok {
+							return fmt.Sprintf("frame %d has an unregistered type/FMT but is returned as %s", i, kindName(ps[i]))
+						}
+						if !bytes.Equal([]byte(*rp), b[off:off+l]) {
+							return fmt.Sprintf("RawPacket %d holds %d octets, its frame has %d: not the frame's bytes verbatim", i, len(*rp), l)
+						}
+					}
+					off += l
+				}
+			}
+		}
 		if base == "udec" && res == "err" {
 			b := NewR(args).H()
 			if framesOK(b) {
@@ -399,6 +441,9 @@ func propertyFailsL(prop, op, res, lean string) (why string) {
 			}
 		}
 	case "C08":
+		if hasPrefix(res, "err-with-bytes") {
+			return "Marshal returns an error together with bytes (" + res + "): an out-of-range value must yield an error and no bytes"
+		}
 		if base == "rembto" {
 			return rembtoOracle(args, res)
 		}
@@ -482,6 +527,11 @@ func propertyFailsL(prop, op, res, lean string) (why string) {
 				return "DestinationSSRC differs from the documented list"
 			}
 		}
+		if base == "rtdst" && res == "err" {
+			if ps := getPackets(NewR(args)); len(ps) == 1 && wfPacket(ps[0]) {
+				return "Marshal rejects a well-formed " + kindName(ps[0]) + ": its DestinationSSRC cannot survive a round trip"
+			}
+		}
 		if base == "rtdst" && isOK {
 			parts := splitSemi(res)
 			ps := getPackets(NewR(args))
@@ -550,6 +600,9 @@ func propertyFailsL(prop, op, res, lean string) (why string) {
 			qs, err := rtcp.Unmarshal(exactCap(b))
 			if (err == nil && specValidCompound(qs)) != isOK {
 				return "CompoundPacket.Unmarshal succeeds iff datagram decodes and validates: violated"
+			}
+			if isOK && err == nil && res != "ok "+packetsTokens(qs) {
+				return "CompoundPacket.Unmarshal returns other packets than the datagram decoder for the same bytes"
 			}
 		}
 	case "C12":
